@@ -342,12 +342,22 @@ func (vc *VC) phi(phi *ssa.Phi) {
 	b := phi.Block()
 	n := vc.declare(vc.valName(phi), sortOf(phi.Type()))
 	vc.vals[phi] = n
+	vc.registerPhiName(phi)
 	for i, p := range b.Preds {
 		if _, ok := vc.endState[p]; !ok {
 			continue
 		}
 		vc.assert(fmt.Sprintf("(=> %s (= %s %s))", vc.edgeCond(p, b), n, vc.val(phi.Edges[i])))
 	}
+}
+
+// registerPhiName: a phi created for source variable x is the value of x from its block on.
+func (vc *VC) registerPhiName(phi *ssa.Phi) {
+	c := phi.Comment
+	if c == "" || strings.ContainsAny(c, "|&$ ") || c == "rangeindex" {
+		return
+	}
+	vc.localRefs[c] = append(vc.localRefs[c], localRef{phi, phi.Block(), false})
 }
 
 // ---- loops -------------------------------------------------------------------------
@@ -656,6 +666,7 @@ func (vc *VC) loopHeader(li *loopInfo) {
 		n := vc.declare(vc.valName(phi), sortOf(phi.Type()))
 		vc.vals[phi] = n
 		li.phiVals[phi] = n
+		vc.registerPhiName(phi)
 		if phi == li.rangeIx {
 			// -1 <= i and i < len follows from the loop structure
 			vc.assume(fmt.Sprintf("(>= %s (- 1))", n))
